@@ -60,6 +60,144 @@ def any_sync_closure(ctx, g, n):
     return False
 
 
+def exists_sync_flag(ctx, g, origin):
+    """the learned fact is about a bool local that is a hand-written `batch.iter().any(|w| w.sync)`:
+        let mut flag = false;  for w in <batch> { if w.sync { flag = true; [break] } }
+    i.e. its only definitions are the constants false and true, and the `true` store is entered only through the true-edge of a switch
+    on the `sync` field of an element the loop took from the batch; the batch vector is non-empty because a push onto it lies on every
+    path from its creation to the loop."""
+    if not (isinstance(origin, tuple) and origin and origin[0] == "place"):
+        return False
+    slot = origin[1]
+    if not (isinstance(slot, tuple) and len(slot) == 3 and slot[2] == ()):
+        return False
+    memo = getattr(g, "_esf_memo", None)
+    if memo is None:
+        memo = g._esf_memo = {}
+    key = (slot[0], slot[1])
+    if key in memo:
+        return memo[key]
+    memo[key] = False
+    inst = g.insts[slot[0]]
+    l = slot[1]
+    if inst.body["locals"][l]["ty"] != "bool":
+        return False
+    defs = g.prog.defs(inst.key).get(l, [])
+    if len(defs) == 1 and defs[0][0] == "s":
+        # `if flag` switches on a temporary copy of the flag
+        st0 = inst.body["blocks"][defs[0][1]]["stmts"][defs[0][2]]
+        rv0 = st0["rv"]
+        if st0["k"] == "assign" and not st0["p"]["proj"] and rv0["k"] == "use" and rv0["a"].get("k") in ("copy", "move") \
+                and not rv0["a"]["p"]["proj"]:
+            r = exists_sync_flag(ctx, g, ("place", (slot[0], rv0["a"]["p"]["l"], ()), origin[2] if len(origin) > 2 else None))
+            memo[key] = r
+            return r
+    consts = {}
+    for d in defs:
+        if d[0] != "s":
+            return False
+        st = inst.body["blocks"][d[1]]["stmts"][d[2]]
+        rv = st["rv"]
+        if st["k"] != "assign" or st["p"]["proj"] or rv["k"] != "use" or rv["a"].get("k") != "const" or rv["a"].get("ty") != "bool":
+            return False
+        consts.setdefault(rv["a"].get("int"), []).append(d[1])
+    if set(consts) != {"0", "1"} or len(consts["1"]) != 1:
+        return False
+    bt = (inst.id, consts["1"][0])
+    # walk back over straight-line predecessors to the switch that guards the store
+    cur, hops, guard = bt, 0, None
+    while hops < 6:
+        ps = [(p_, lab) for p_, lab in g.pred[cur] if p_[0] == inst.id]
+        if len(ps) != 1:
+            break
+        p_, lab = ps[0]
+        if g.term(p_)["k"] == "switch":
+            guard = (p_, lab)
+            break
+        cur = p_
+        hops += 1
+    if guard is None:
+        return False
+    sw, lab = guard
+    t = g.term(sw)
+    if t.get("dty") != "bool" or not (lab and lab[0] == "sw" and lab[1] != "0"):
+        return False
+    d = t["discr"]
+    if d.get("k") not in ("copy", "move"):
+        return False
+    e = strip_ids(g.prov_operand(inst, d))
+    if not is_field(e, "sync"):
+        return False
+    nxt = [x for x in [e] if contains(x, lambda y: call_is(y, r"iter::Iterator>?::next$"))]
+    if not nxt:
+        return False
+    # the iterated vector, and a push onto it on every path from its creation to the loop
+    vec = None
+
+    def find(y):
+        nonlocal vec
+        if call_is(y, r"iter::Iterator>?::next$") and vec is None:
+            vec = call_arg(y, 0)
+        return False
+    contains(e, find)
+    if not (isinstance(vec, tuple) and vec and vec[0] == "call" and re.search(r"Vec::<T(, A)?>::(with_capacity|new)$", vec[1])):
+        return False
+    create = [n for n in g.call_nodes(r"Vec::<T(, A)?>::(with_capacity|new)$") if strip_ids(g.prov_call(g.inst(n), n[1])) == vec]
+    pushes = {n for n in g.call_nodes(r"Vec::<T, A>::push$") if strip_ids(event_args(g, n)[0]) == vec}
+    loops = [n for n in g.call_nodes(r"iter::Iterator>?::next$") if strip_ids(event_args(g, n)[0]) == vec]
+    if len(create) != 1 or not pushes or not loops:
+        return False
+    seen, work = {create[0]}, [create[0]]
+    while work:
+        x = work.pop()
+        for m, _lab in g.succ[x]:
+            if m in pushes or m in seen:
+                continue
+            seen.add(m)
+            work.append(m)
+    if any(n in seen for n in loops):
+        return False          # the loop can be reached without a push: the batch may be empty
+    memo[key] = True
+    return True
+
+
+def flag_switches(ctx, g):
+    """switch nodes whose discriminant is (a copy of) an exists-sync flag -> slot of the switched local"""
+    memo = getattr(g, "_fsw_memo", None)
+    if memo is not None:
+        return memo
+    memo = {}
+    for n in g.nodes:
+        t = g.term(n)
+        if t["k"] == "switch" and t.get("dty") == "bool" and t["discr"].get("k") in ("copy", "move") and not t["discr"]["p"]["proj"]:
+            slot = (n[0], t["discr"]["p"]["l"], ())
+            if exists_sync_flag(ctx, g, ("place", slot, n)):
+                memo[n] = slot
+    g._fsw_memo = memo
+    return memo
+
+
+def no_sync_branch_dead(ctx, g, P, pi):
+    """the product is about to leave an `if <exists-sync flag>` test with the flag known false: impossible when every request is
+    built with sync = true and the batch is non-empty (see exists_sync_flag)"""
+    n = P.gnode(pi)
+    fs = flag_switches(ctx, g)
+    if n not in fs:
+        return False
+    tg = P.tags_after_block(pi).get(fs[n])
+    return bool(tg) and tg[0] == "false"
+
+
+def no_sync_requested(ctx, g, origin, v):
+    """the learned fact says `no request of the batch asked for a sync` (dead when every request is built with sync = true)"""
+    cn = origin_call(origin)
+    if cn is not None and any_sync_closure(ctx, g, cn) and v == "false":
+        return True
+    if v == "false" and exists_sync_flag(ctx, g, origin):
+        return True
+    return False
+
+
 def r04_5(ctx, rep):
     aggs = ctx.all_aggregates(r"flush_request::WriteRequest$")
     rep.floor("R04.5", "WriteRequest{..} constructions", len(aggs), 2)
@@ -126,6 +264,9 @@ def run(ctx, rep):
     files_mut_any = [n for n in g.call_nodes(None)
                      if event_args(g, n) and FILES(event_args(g, n)[0]) and
                      g.inst(n).body["locals"][g.term(n)["args"][0]["p"]["l"]]["ty"].startswith("&mut ")
+                     # advancing a shared (read-only) iterator over the list does not mutate the list
+                     and not re.match(r"&mut (std|core)::(slice::Iter<|iter::\w+<(std|core)::slice::Iter<)",
+                                      g.inst(n).body["locals"][g.term(n)["args"][0]["p"]["l"]]["ty"])
                      if g.term(n)["args"][0]["k"] in ("copy", "move")]
     sync_set = set(sync_nodes)
     write_set = set(write_nodes)
@@ -137,13 +278,15 @@ def run(ctx, rep):
     def step1(ms, pi, qi, learn):
         synced, le1 = ms
         n = P.gnode(pi)
+        if sync_true and no_sync_branch_dead(ctx, g, P, pi):
+            return None
         if n in write_set or n in push_set:
             synced = False
         if n in mut_set and not cmatch(g.term(n), r"IndexMut<I>>::index_mut$"):
             le1 = False
         for origin, v in norm_learn(learn):
             cn = origin_call(origin)
-            if cn is not None and any_sync_closure(ctx, g, cn) and v == "false" and sync_true:
+            if sync_true and no_sync_requested(ctx, g, origin, v):
                 return None      # dead by R04.5: every request has sync = true
             if len_le1_fact(g, origin, v):
                 le1 = True
